@@ -3,6 +3,7 @@ package parser
 import (
 	"bufio"
 	"bytes"
+	"fmt"
 	"io"
 )
 
@@ -17,6 +18,10 @@ const (
 type scanner struct {
 	r   *bufio.Reader
 	pos TokenPos
+	// Set once the end of the input is reached (a NUL character in the input is not the end)
+	atEOF bool
+	// First lexical error found (e.g. an illegal character), reported by Parse
+	err *ParseError
 }
 
 // newScanner returns a new instance of Scanner.
@@ -29,6 +34,7 @@ func newScanner(r io.Reader) *scanner {
 func (s *scanner) read() rune {
 	ch, _, err := s.r.ReadRune()
 	if err != nil {
+		s.atEOF = true
 		return eof
 	}
 	if ch == '\n' {
@@ -66,6 +72,10 @@ func (s *scanner) Scan() (token tok, value string, startPos, endPos TokenPos) {
 
 	switch ch {
 	case eof:
+		if !s.atEOF {
+			// A NUL character in the input, not the end of the input
+			s.illegal(ch, startPos)
+		}
 		return 0, "", startPos, endPos
 	case '>':
 		return RANGLE, string(ch), startPos, endPos
@@ -115,7 +125,16 @@ func (s *scanner) Scan() (token tok, value string, startPos, endPos TokenPos) {
 		return s.scanLabel(ch)
 	}
 
+	s.illegal(ch, startPos)
 	return kILLEGAL, string(ch), startPos, endPos
+}
+
+// Records the first illegal character found. Since the kILLEGAL token is indistinguishable
+// from the end of the input for the parser, the error is reported by Parse.
+func (s *scanner) illegal(ch rune, pos TokenPos) {
+	if s.err == nil {
+		s.err = &ParseError{Err: fmt.Sprintf("illegal character %q", ch), Pos: pos}
+	}
 }
 
 // Scan label or keyword
@@ -126,7 +145,7 @@ func (s *scanner) scanLabel(ch rune) (token tok, value string, startPos, endPos 
 	buf.WriteRune(ch)
 
 	for {
-		if ch := s.read(); ch == eof {
+		if ch := s.read(); ch == eof && s.atEOF {
 			break
 		} else if !isAlphaNum(ch) && !isUnderscore(ch) && !isApostrophe(ch) {
 			s.unread()
@@ -210,7 +229,7 @@ func (s *scanner) scanLabel(ch rune) (token tok, value string, startPos, endPos 
 
 func (s *scanner) skipWhitespace() {
 	for {
-		if ch := s.read(); ch == eof {
+		if ch := s.read(); ch == eof && s.atEOF {
 			break
 		} else if !isWhitespace(ch) {
 			s.unread()
@@ -251,7 +270,7 @@ func (s *scanner) skipToEndOfComment() {
 
 func (s *scanner) skipToEOL() {
 	for {
-		if ch := s.read(); ch == '\n' || ch == eof {
+		if ch := s.read(); ch == '\n' || (ch == eof && s.atEOF) {
 			break
 		}
 	}
@@ -325,5 +344,6 @@ func (s *scanner) scanSpecialSymbol(ch rune) (token tok, value string, startPos,
 		}
 	}
 	// Not one of the special commands
+	s.illegal(ch, startPos)
 	return kILLEGAL, string(ch), startPos, endPos
 }
